@@ -19,7 +19,8 @@ Inductive tval :=
 | TSub (v : tval)                         (* SubclassValue *)
 | TCallAny (r : tval)
 | TCall (ps : list tval) (r : tval)
-| TAnnot (v : tval) (m : N).
+| TAnnot (v : tval) (m : N)
+| TAlias (n : N) (args : list tval).   (* TypeAliasValue: a PEP 695 alias, with its type arguments *)
 
 Definition tuple_c : N := 1000%N.
 Definition dict_c : N := 1001%N.
@@ -29,7 +30,7 @@ Definition type_c : N := 8%N.
 (* the annotation forms the two dispatch functions recognise *)
 Inductive form :=
 | FUnion | FLiteral | FTupleBare | FTupleVar | FTupleEmpty | FTupleFixed | FOptional | FType
-| FAnnotated | FFinal | FClassVar | FUnpack | FCallable | FGenericClass.
+| FAnnotated | FFinal | FClassVar | FUnpack | FCallable | FGenericClass | FTypeAlias.
 
 (* what the recognising branch does with the (already converted) arguments *)
 Inductive action :=
@@ -45,13 +46,14 @@ Inductive action :=
 | ActTransparent                  (* member 0 *)
 | ActUnpacked                     (* UnpackedValue(member 0) *)
 | ActCallable                     (* CallableValue from parameter types and return type *)
-| ActGenericOf.                   (* GenericValue(root, members) *)
+| ActGenericOf                    (* GenericValue(root, members) *)
+| ActAliasOf.                     (* TypeAliasValue(alias, members) *)
 
 Definition form_code (f : form) : nat :=
   match f with
   | FUnion => 0 | FLiteral => 1 | FTupleBare => 2 | FTupleVar => 3 | FTupleEmpty => 4 | FTupleFixed => 5
   | FOptional => 6 | FType => 7 | FAnnotated => 8 | FFinal => 9 | FClassVar => 10 | FUnpack => 11
-  | FCallable => 12 | FGenericClass => 13
+  | FCallable => 12 | FGenericClass => 13 | FTypeAlias => 14
   end.
 
 Fixpoint act (t : list (form * action)) (f : form) : option action :=
